@@ -56,7 +56,7 @@ def get_mir(repo=REPO, features_default=True, verbose=True):
         if os.path.exists(path) and os.path.getsize(path) > 100000:
             info['cached'] = True
             return open(path).read(), info
-        scratch = os.path.join(CACHE, 'mir-src')
+        scratch = os.path.join(CACHE, 'mir-src' if os.path.realpath(repo) == '/repo' else 'mir-src-' + hashlib.sha256(os.path.realpath(repo).encode()).hexdigest()[:8])
         scratch_copy(scratch, repo)
         t0 = time.time()
         env = dict(os.environ, CARGO_NET_OFFLINE='true')
@@ -81,6 +81,8 @@ def get_mir(repo=REPO, features_default=True, verbose=True):
                        key=lambda f: os.path.getmtime(os.path.join(CACHE, f)))
         for f in dumps[:-6]:
             os.remove(os.path.join(CACHE, f))
+        if scratch != os.path.join(CACHE, 'mir-src'):
+            shutil.rmtree(scratch, ignore_errors=True)
         return p.stdout, info
     finally:
         fcntl.flock(lock, fcntl.LOCK_UN)
